@@ -535,8 +535,13 @@ class NullContext:
 
 
 def error_filter(exc):
-    """disconnect_error_filter(exc): an arbitrary predicate on the exception."""
-    return nondet_bool()
+    """disconnect_error_filter(exc): an arbitrary predicate on the exception.  Ghost: ghost.filter_calls counts the
+    consultations, ghost.filter_accepts those that classified the exception as a disconnection."""
+    ghost.filter_calls = ghost.filter_calls + 1
+    if nondet_bool():
+        ghost.filter_accepts = ghost.filter_accepts + 1
+        return True
+    return False
 
 
 class HandlerGen:
